@@ -180,6 +180,8 @@ def judgeC07 (op : DoOp) (out : String) : Expect :=
   | none => .free
   | some (r, _, _) =>
     if op.nilReq || op.notConnected || op.writeFails then .free else
+    if (out.splitOn "CALL-AFTER-A-FAILED-ONE-DIFFERS-FROM-THE-FIRST-CALL-OF-A-NEW-CLIENT").length > 1 then
+      .pred false "after a failed exchange the same client was handed a complete, correct reply to its next request and did not return what a new client returns for it" else
     if !onlyDataAndTimeouts op.script || fragData op.script != op.reply then .noPanic else
     if op.kind == .serial && op.flusher == .failing then .noPanic else
     let fr := op.kind.framing
@@ -210,7 +212,9 @@ def judgeC08 (op : DoOp) (out : String) : Expect :=
   match op.request with
   | none => .free
   | some (_, _, expected) =>
-    if op.writeFails then .pred (o.startsWith "err client:") "a rejected write must be reported as a client error" else
+    if op.writeFails then
+      .pred (o == "err client:write" || (o == "err client:flush" && op.kind == .serial && op.flusher == .failing))
+        "a rejected write must be reported as the client error wrapping the cause (errors.Is finds the port's error)" else
     if op.preCancel then .pred (o == "err ctx") "a call made with a cancelled context must return the context's error, never success" else
     let got := dataOf op.script
     -- the complete reply is available at some read boundary: the call may legitimately succeed there
@@ -247,6 +251,8 @@ def judgeC12 (op : DoOp) (out : String) : Expect :=
   if op.kind == .tcp || op.nilReq || op.notConnected || op.writeFails then .free else
   if (out.splitOn "CORRUPTED-REPEAT-OF-THE-LAST-REPLY-ACCEPTED").length > 1 then
     .pred false "a reply with a flipped payload bit (and the trailer of the reply before it) was returned as a response" else
+  if (out.splitOn "ALIASED-rewritten-by-next-call").length > 1 then
+    .pred false "the bytes of a later reply with an inconsistent CRC showed up as the data of the response the caller already held" else
   let got := dataOf op.script
   if got.length < 2 || endsWithSpecCrc got then .noPanic else
   -- a CRC-consistent frame that is complete at a read boundary may legitimately be accepted there
